@@ -25,8 +25,7 @@ def run_units(report, group, units, cases, nbins=8, model=True):
     bins, log, wall = tieb.build(group, mods, nbins=nbins)
     report.cov["harness_build_s"] = round(report.cov.get("harness_build_s", 0) + wall, 1)
     if bins is None:
-        report.violation({"kind": "obligation-broken", "no_longer_checks": [f"generated programs of group {group} do not compile against the repository"],
-                          "log": log[-6000:]}, no_input=True)
+        tieb.report_build_failure(report, group, mods, log)
         return None
     sprog = lean_has_sprog()
     ilines, mlines, pids = [], [], []
